@@ -1,7 +1,7 @@
 ID = "C03"
 LEVEL = "proof"
-CONTRACT_MODULES = ["contracts.sorting", "contracts.refcount", "contracts.tasks"]
-FUNCTIONS = ["RefCount.append", "RefCount.extend", "RefCount.remove", "Manager.register", "Manager.unregister"]
+CONTRACT_MODULES = ["contracts.sorting", "contracts.refcount", "contracts.tasks", "contracts.tasks_proto"]
+FUNCTIONS = ["RefCount.append", "RefCount.extend", "RefCount.remove", "Manager.register", "Manager.unregister", "Manager.set_value"]
 RAC = "rac/c03.py"
 RAC_BUDGET = {"quick": 60, "thorough": 900}
 DESIGN_REF = "DESIGN.md section 4, C03"
@@ -20,7 +20,8 @@ ASSUMPTIONS = [
 ]
 BOUNDED = ["clone/refresh/verify/queries compared with a freshly built manager at run time only (length<=3/4 histories)"]
 EXPLANATION = ("class invariant IdxWF (indices == F(registered tasks), count-exact) proved preserved by the real "
-               "Manager.register and Manager.unregister, over the proved contracts of RefCount.append/extend/remove")
+               "Manager.register and Manager.unregister, over the proved contracts of RefCount.append/extend/remove; Manager.set_value "
+               "replaces a definition by unregister + register and schedules from the UPDATED indices (a removed task is not run)")
 LEVEL_TEXT = ("IdxWF is a function of the registered task set only, so 'no trace of removed definitions' is the invariant "
               "itself; register/unregister are proved to preserve it for all task sets and all set iteration orders "
               "(35 + 83 + 22 obligations, z3).")
